@@ -4,7 +4,7 @@
    order and per-key results depend only on that key's subsequence, for every tick partition and
    every interleaving of different keys.
    Proved for the modelled IR (subset of HydroNode, see checks/C29.json). *)
-From HV Require Import Hydro.Model Hydro.ModelTick Hydro.ModelFlows Hydro.PBase Hydro.PTick Hydro.PFlows Hydro.PRepair.
+From HV Require Import Hydro.Model Hydro.ModelTick Hydro.ModelFlows Hydro.PBase Hydro.PTick Hydro.PFlows Hydro.PRepair Hydro.PSort.
 
 (* TotalOrder nodes: sequence equality with the denotation, for every partition into ticks *)
 Theorem C29_total_order_modelled_ir :
@@ -96,6 +96,11 @@ Theorem C29_repaired_typing_oracle_independent : forall n, bwf n ->
   forall bs, Forall2 (equiv (bord n)) (bspec_o sigma n bs) (bspec_o sigma' n bs).
 Proof. exact bspec_oracle_independent. Qed.
 Print Assumptions C29_repaired_typing_oracle_independent.
+
+(* sort() turns any arrival order into one sequence (so BSort needs no ordered input above) *)
+Theorem C29_sort_order_independent : forall a b, Permutation a b -> vsort a = vsort b.
+Proof. exact vsort_perm. Qed.
+Print Assumptions C29_sort_order_independent.
 
 (* the former finding's flow is typed NoOrder and satisfies the hypotheses *)
 Example C29_repaired_typing_on_witness : bord t_join_half_unord = false /\ bwf t_join_half_unord.
